@@ -238,6 +238,10 @@ class _TF(object):
                 continue
             if self.K is None:
                 _fail(self.FNAME, st, 'statement before the caching key is computed')
+            # `if True:` is its body
+            if isinstance(st, ast.If) and isinstance(st.test, ast.Constant) and st.test.value is True and not st.orelse:
+                out.extend(self.block(st.body))
+                continue
             # if has
             if isinstance(st, ast.If):
                 t = st.test
